@@ -306,6 +306,31 @@ def run(tier):
                       "could then follow a ':' without a bracket or comma in between, single pairs nest without the flow level counting them and the nesting "
                       "limit is bypassed" % f.name, site=site(f, sp) if sp else f.span)
     rep.floor("places that re-allow simple keys", n_allow, 8)
+    # ... and whether a ':' opens such a bracket-less pair is decided by flow_mapping_started, which must be the enclosing collection's again
+    # once a bracket has closed: the value restored from the per-collection stack is not overwritten afterwards (a pair would then be
+    # opened inside a '{', where no ',' ever ends it: one more mapping per entry at a constant flow level)
+    import json as _json
+    from . import C15 as _C15
+    with open(os.path.join(facts.VERIF, "tables", "c15_fields.json")) as fh:
+        ent = _json.load(fh)["fields"].get(SCANNER, {}).get("flow_mapping_started")
+    if ent is None or ent.get("class") != "RESTORED":
+        raise facts.MissingAnchor("tables/c15_fields.json has no RESTORED entry for Scanner.flow_mapping_started")
+    rs = F.fn(ent["restored_in"])
+    rws = []
+    for w in cfg.field_writes(rs, SCANNER, "flow_mapping_started"):
+        if w["kind"] == "assign" and w["stmt"]["rv"]["k"] == "use":
+            txt = cfg.expr_str(cfg.expr_operand(rs, w["stmt"]["rv"]["a"], 10))
+            if "::pop(" in txt and ent["stack"] in txt:
+                rws.append(w["bb"])
+        elif w["kind"] == "call_dest":
+            txt = " ".join(cfg.expr_str(cfg.expr_operand(rs, a, 10)) for a in w["term"]["args"])
+            if "::pop(" in txt and ent["stack"] in txt:
+                rws.append(w["bb"])
+    writers = {k for k, g in F.fns.items() if k.startswith("saphyr_parser::") and cfg.field_writes(g, SCANNER, "flow_mapping_started")}
+    late = _C15.restore_is_final(F, SCANNER, "flow_mapping_started", rs, set(rws), writers) if rws else ["no restore from the stack found"]
+    rep.check(not late, "pair-flag-restored-last", short(rs.key), "after a closing bracket flow_mapping_started is not the enclosing collection's value (%s): a ':' "
+              "there opens a single-pair mapping inside a '{', which nothing closes - nesting grows by one per entry while the flow level stays put" % ", ".join(late),
+              site=rs.span)
     # R5: the heap stacks that take over from the call stack grow with the input: the cycle-free core pushes one entry per open collection
     # (parser states, marks, indents, simple keys, loader document/key stacks).  A fixed-capacity container there (ArrayDeque, ArrayVec,
     # an array indexed by depth) turns "nesting deeper than N" into a panic or a silent overwrite.  Fixed-capacity containers are allowed
